@@ -1043,6 +1043,10 @@ struct Zeroconf {
     /// Active "Browse" commands.
     service_queriers: HashMap<String, Sender<ServiceEvent>>, // <ty_domain, channel::sender>
 
+    /// The `ty_domain`s in `service_queriers` that are browsed from the cache only:
+    /// no query, including cache refresh queries, is sent for them.
+    cache_only_queriers: HashSet<String>,
+
     /// Active "ResolveHostname" commands.
     ///
     /// The timestamps are set at the future timestamp when the command should timeout.
@@ -1260,6 +1264,7 @@ impl Zeroconf {
             dns_registry_map,
             hostname_resolvers: HashMap::new(),
             service_queriers: HashMap::new(),
+            cache_only_queriers: HashSet::new(),
             retransmissions: Vec::new(),
             counters: HashMap::new(),
             poller,
@@ -3625,6 +3630,11 @@ impl Zeroconf {
             //
             // If there is already a `listener`, it will be updated, i.e. overwritten.
             self.service_queriers.insert(ty.clone(), listener.clone());
+            if cache_only {
+                self.cache_only_queriers.insert(ty.clone());
+            } else {
+                self.cache_only_queriers.remove(&ty);
+            }
 
             // if we already have the records in our cache, just send them
             self.query_cache_for_service(&ty, &listener, now);
@@ -3810,6 +3820,8 @@ impl Zeroconf {
         match self.service_queriers.remove_entry(&ty_domain) {
             None => debug!("StopBrowse: cannot find querier for {}", &ty_domain),
             Some((ty, sender)) => {
+                self.cache_only_queriers.remove(&ty);
+
                 // Remove pending browse commands in the reruns.
                 trace!("StopBrowse: removed queryer for {}", &ty);
                 let mut i = 0;
@@ -3949,6 +3961,10 @@ impl Zeroconf {
         let mut query_addr_count = 0;
 
         for (ty_domain, _sender) in self.service_queriers.iter() {
+            if self.cache_only_queriers.contains(ty_domain) {
+                continue; // A cache-only browse never sends a query.
+            }
+
             let refreshed_timers = self.cache.refresh_due_ptr(ty_domain);
             if !refreshed_timers.is_empty() {
                 trace!("sending refresh query for PTR: {}", ty_domain);
